@@ -61,7 +61,7 @@ SPEC = dict(
              "raise), so both round-trip theorems hold of regenerated deserialize after regenerated serialize (c14_src_roundtrip_plain, "
              "c14_src_roundtrip_auto), the framing reader of the regenerated code returns exactly the content and skips exactly the frame for "
              "every length below 2^24 (c14_src_string_lengths_reader), and no budget is ever the reason for a failure: the result with depth "
-             "(len/4+1)(R+2) and len+2 loop iterations is the result with any larger budgets (c19_src_tl_total).",
+             "(len/4+1)(R+2) and len+2 loop iterations is the result with any larger budgets (c19_src_tl_total, Properties/C19Tl.lean, audited with C19).",
         level_note='Trusted: Lean kernel (propext, Classical.choice, Quot.sound), Spec/Tl.lean as the TL format, the table translator '
                    '(harness/translate/tl_table.py), the hand model Model/Tl.lean (tied by sampled correspondence, not by proof), Python '
                    'for the serialiser and the parser the hand model is now PROVED equal to the regenerated methods (trusted instead: the translator pydyn.py/pyobj.py, '
